@@ -524,7 +524,7 @@ def run(ctx):
     if th:
         rounds = [(g, 520) for g in (16, 8, 4, 16, 12, 2)] * 5
     else:
-        rounds = [(16, 220), (8, 160), (4, 100)]
+        rounds = [(16, 220), (8, 160), (4, 100), (12, 140)]
     traces = collections.defaultdict(list)      # goroutines -> [(events, round)]
     ndrive = 0
     for k, (g, n) in enumerate(rounds):
